@@ -11,7 +11,8 @@ class C07(HistCheck):
     ORACLES = (hist.oracle_c07,)
     RULE = ("all algorithms (DE, NSDE, GDE3, GDE3MNN, GDE32NN, GDE3P, NSDE-R) driven by ask-and-tell for 4 generations, population sizes n_parents+{1,2,4,7}; per generation: "
             "number of offspring, evaluator.n_eval, population size, object identities, stored F/G re-computed from stored X and compared bitwise, snapshots of every "
-            "individual before/after ask and tell; the mating (ask) and the replacement/survival (tell) are compared with the model; distinct by hash")
+            "individual before/after ask and tell; the mating (ask) and the replacement/survival (tell) are compared with the model; distinct by hash"
+            "; 30% of NSDE/GDE3 cases use the algorithm's default survival object, 30% of all cases run after a default-constructed algorithm of the same class was stepped on another (constrained <-> unconstrained) problem in the same process")
     ASSUMPTIONS = ["'nothing alters an individual after evaluation' is a property of the functional model and an observation (snapshots) on CPython objects"]
 
 
